@@ -24,7 +24,7 @@ HERE = os.path.dirname(os.path.dirname(os.path.abspath(__file__)))
 def run_history(history, seed=0, timeout=600):
     env = dict(os.environ)
     env["PYTHONHASHSEED"] = str(seed)
-    env["PYTHONPATH"] = HERE + ":/repo"
+    env["PYTHONPATH"] = HERE + ":" + os.environ.get("POLAR_REPO", "/repo")
     env["PYTHONDONTWRITEBYTECODE"] = "1"
     try:
         p = subprocess.run([PY, "-m", "checks.c20_worker"], input=json.dumps(history), capture_output=True, text=True, timeout=timeout, env=env, cwd=HERE)
